@@ -11,15 +11,22 @@ From Verif Require Import Base.Hex Base.Verdict Base.VarInt Model.Relay.
 Import ListNotations.
 Open Scope N_scope.
 
-Record case := mk {
-  ver : N;                 (* protocol number of the client *)
-  serverbound : bool;      (* true: client -> backend, false: backend -> client *)
-  ta : Z;                  (* compression threshold of the sending side's connection (-1 = off) *)
-  tb : Z;                  (* threshold of the receiving side's connection *)
-  known : table;           (* ids gate's registry knows for (Play, direction, ver) and what the handler does *)
-  sent_lens : list N; sent_blob : bytes;
-  recv_lens : list N; recv_blob : bytes
-}.
+Inductive case :=
+| mk (ver : N)                 (* protocol number of the client *)
+     (serverbound : bool)      (* true: client -> backend, false: backend -> client *)
+     (ta : Z)                  (* compression threshold of the sending side's connection (-1 = off) *)
+     (tb : Z)                  (* threshold of the receiving side's connection *)
+     (known : table)           (* ids gate's registry knows for (Play, direction, ver) and what the handler does *)
+     (sent_lens : list N) (sent_blob : bytes)
+     (recv_lens : list N) (recv_blob : bytes)
+(* A long stream through one proxy process (tens of thousands of packets), compared in Go packet by
+   packet on (index, length, SHA-256); only a summary travels: the distinct packet ids that were used
+   (checked here to be pass-through), the counts, a running SHA-256 over all (index, length, digest)
+   triples of each side, and - if the streams differ - the index of the first differing packet with
+   the expected / received lengths and leading bytes (for the replay). *)
+| long (ver : N) (serverbound : bool) (ta tb : Z) (known : table) (ids : list N)
+       (n_sent n_recv : N) (digest_sent digest_recv : bytes)
+       (first_diff : option N) (exp_len act_len : N) (exp_head act_head : bytes).
 
 Definition rlen (n : N) : nat := N.to_nat ((if n <=? 40 then n else 40) + 4).
 
@@ -49,13 +56,31 @@ Definition in_model (t : table) (p : bytes) : bool :=
   | Some KIntercept => false
   end.
 
-Definition judge (c : case) : verdict :=
-  match split (sent_lens c) (sent_blob c), split (recv_lens c) (recv_blob c) with
+Definition judge_run (known : table) (sent_lens : list N) (sent_blob : bytes)
+           (recv_lens : list N) (recv_blob : bytes) : verdict :=
+  match split sent_lens sent_blob, split recv_lens recv_blob with
   | Some s, Some r =>
-    if forallb (in_model (known c)) s then
+    if forallb (in_model known) s then
       (* the model: dispatch of Model.Relay with handlers that write nothing (KDrop) *)
-      let expected := relay_payloads (known c) (fun _ => []) s in
+      let expected := relay_payloads known (fun _ => []) s in
       if beq_list expected r then VOk else VViolation
     else VMismatch
   | _, _ => VMismatch
+  end.
+
+(* every id of the long stream is pass-through, so the model's relay is the identity on it
+   (Properties.C15.C15_dispatch_identity): received must equal sent *)
+Definition judge_long (known : table) (ids : list N) (n_sent n_recv : N)
+           (digest_sent digest_recv : bytes) (first_diff : option N) : verdict :=
+  if forallb (fun id => match lookup id known with None | Some KForward => true | _ => false end) ids then
+    match first_diff with
+    | None => if (n_sent =? n_recv) && beq_bytes digest_sent digest_recv then VOk else VViolation
+    | Some _ => VViolation
+    end
+  else VMismatch.
+
+Definition judge (c : case) : verdict :=
+  match c with
+  | mk _ _ _ _ known sl sb rl rb => judge_run known sl sb rl rb
+  | long _ _ _ _ known ids ns nr ds dr fd _ _ _ _ => judge_long known ids ns nr ds dr fd
   end.
